@@ -107,6 +107,64 @@ def compute_hot_set():
     return tiers
 
 
+_WRITE_OPS = {"STORE_ATTR", "DELETE_ATTR", "STORE_SUBSCR", "DELETE_SUBSCR",
+              "STORE_GLOBAL", "DELETE_GLOBAL"}
+_write_adjacent = {}
+
+
+def write_adjacent_offsets(code):
+    """Instruction offsets right after (and at) a store to an attribute, a
+    subscript or a global: where a thread has just published, or is about to
+    publish, part of a multi-step update."""
+    r = _write_adjacent.get(code)
+    if r is None:
+        r = set()
+        prev_write = False
+        for ins in dis.get_instructions(code):
+            if prev_write:
+                r.add(ins.offset)
+            prev_write = ins.opname in _WRITE_OPS
+            if prev_write:
+                r.add(ins.offset)
+        _write_adjacent[code] = r
+    return r
+
+
+def code_id(code):
+    return [code.co_filename[len(SYMMRAY_DIR):], code.co_name, code.co_firstlineno]
+
+
+def discover_executed(tiers, fn):
+    """Run fn() and return the hot code objects it executed (PY_START events,
+    each disabled after its first firing: near-zero overhead)."""
+    seen = []
+
+    def cb(code, offset):
+        seen.append(code)
+        return _mon.DISABLE
+
+    _mon.use_tool_id(TOOL_ID, "symsim-discover")
+    try:
+        _mon.register_callback(TOOL_ID, _mon.events.PY_START, cb)
+        for c in tiers:
+            _mon.set_local_events(TOOL_ID, c, _mon.events.PY_START)
+        fn()
+    finally:
+        for c in tiers:
+            try:
+                _mon.set_local_events(TOOL_ID, c, 0)
+            except Exception:  # noqa: BLE001
+                pass
+        _mon.register_callback(TOOL_ID, _mon.events.PY_START, None)
+        _mon.free_tool_id(TOOL_ID)
+        _mon.restart_events()
+    out = []
+    for c in seen:
+        if c not in out:
+            out.append(c)
+    return out
+
+
 # ---------------------------------------------------------------- scheduler
 
 
@@ -114,7 +172,8 @@ class Policy:
     """Decides, at each pre-emption point, whether to switch and to whom."""
 
     def __init__(self, kind, rng=None, p_a=0.3, p_b=0.05, p_cold=0.001,
-                 pct_points=(), recorded=None, recorded_exits=None):
+                 pct_points=(), recorded=None, recorded_exits=None,
+                 breakpoint=None, occurrence=1):
         self.kind = kind
         self.rng = rng
         self.p = {"A": p_a, "B": p_b, None: p_cold}
@@ -122,8 +181,24 @@ class Policy:
         self.recorded = recorded or {}
         self.recorded_exits = list(recorded_exits or [])
         self.hot_events = 0
+        # "breakpoint": the first thread to reach one chosen (code, instruction)
+        # site for the k-th time is parked there until every other thread has
+        # finished -- one pre-emption, placed exactly, instead of p^k luck
+        self.breakpoint = breakpoint
+        self.occurrence = occurrence
+        self.seen = 0
+        self.parked = None
 
-    def decide(self, point, tid, tier, runnable):
+    def decide(self, point, tid, tier, runnable, code=None, where=None):
+        if self.kind == "breakpoint":
+            if self.parked is None and self.breakpoint == (code, where):
+                self.seen += 1
+                if self.seen == self.occurrence:
+                    others = [t for t in runnable if t != tid]
+                    if others:
+                        self.parked = tid
+                        return self.rng.choice(sorted(others))
+            return None
         if self.kind == "recorded":
             to = self.recorded.get(point)
             if to is not None and to in runnable:
@@ -153,12 +228,16 @@ class Policy:
             return None
         if self.kind == "sequential":
             return min(runnable)
+        if self.kind == "breakpoint":
+            others = [t for t in runnable if t != self.parked]
+            return min(others) if others else min(runnable)
         return self.rng.choice(sorted(runnable))
 
 
 class Baton:
     def __init__(self, fns, policy, tiers, max_points=2_000_000, wait=120.0,
-                 instruction_level=True, extra_instruction_codes=()):
+                 instruction_level=True, extra_instruction_codes=(),
+                 line_level=True, only_instruction_codes=None):
         self.fns = fns
         self.n = len(fns)
         self.policy = policy
@@ -176,8 +255,12 @@ class Baton:
         self.hot_points = 0
         self.tidmap = {}
         self.errors = []
+        self.site_counts = {}       # (code, -offset-1) -> times reached (hot sites only)
+        self.record_sites = False
         self.instruction_level = instruction_level
         self.extra_codes = list(extra_instruction_codes)
+        self.line_level = line_level
+        self.only_codes = only_instruction_codes
         self._exit_i = 0
 
     # -- tracing
@@ -213,7 +296,10 @@ class Baton:
         tier = self.tiers.get(code)
         if tier is not None:
             self.hot_points += 1
-        to = self.policy.decide(self.point, tid, tier, self.alive)
+            if self.record_sites and where < 0:
+                k = (code, where)
+                self.site_counts[k] = self.site_counts.get(k, 0) + 1
+        to = self.policy.decide(self.point, tid, tier, self.alive, code, where)
         if to is None or to == tid or to not in self.alive:
             return
         self.switches.append((self.point, to))
@@ -241,7 +327,8 @@ class Baton:
         if not self.sems[tid].acquire(timeout=self.wait):
             self.errors.append(HarnessError(f"thread {tid} never started"))
             return
-        sys.settrace(self._make_tracer(tid))
+        if self.line_level:
+            sys.settrace(self._make_tracer(tid))
         try:
             self.fns[tid]()
         except HarnessError as e:
@@ -262,6 +349,8 @@ class Baton:
     def run(self):
         hot_codes = [c for c, t in self.tiers.items() if t == "A"] if self.instruction_level else []
         hot_codes = hot_codes + [c for c in self.extra_codes if c not in hot_codes]
+        if self.only_codes is not None:
+            hot_codes = list(self.only_codes)
         registered = False
         try:
             if hot_codes:
